@@ -48,7 +48,7 @@ def main():
                                        "operation histories for the history-quantified properties"}],
         "checks": checks,
         "not_applicable": na,
-        "notes": "Deadlines: quick 8 min, thorough 40 min (FXMC_DEADLINE_S overrides); a run cut by its deadline reports exhaustive:false. "
+        "notes": "Deadlines: quick 15 min (1-4 min of work on 16 idle cores), thorough 40 min (FXMC_DEADLINE_S overrides); a run cut by its deadline reports exhaustive:false. "
                  "Known findings: /verif/known_findings.json (never written at run time).",
     }
     with open(os.path.join(VERIF, "MANIFEST.json"), "w") as f:
